@@ -63,6 +63,11 @@ def import_openhtf():
   threads.ctypes = core.CtypesFacade
   from openhtf.util import console_output
   console_output.CLI_QUIET = True
+  import logging
+  # a logging handler that raises would print to stderr; checks observe lost messages themselves
+  logging.raiseExceptions = False
+  # exceptions in __del__ of half-constructed objects (a kill can land inside a constructor)
+  sys.unraisablehook = lambda *a: None
   return openhtf
 
 
@@ -88,6 +93,9 @@ def hygiene():
     test_descriptor.Test.HANDLED_SIGINT_ONCE = False
   except ImportError:
     pass
+  # logging caches isEnabledFor() per logger: a cold cache takes the module lock
+  # (a scheduling point), a warm one does not - start every run cold
+  logging.Logger.manager._clear_cache()  # pylint: disable=protected-access
   import uuid
   if hasattr(uuid, '_verif_counter'):
     uuid._verif_counter[0] = 0
